@@ -55,6 +55,7 @@ func VerifC08_MetaCodec() {
 	var m2 Meta
 	_, err = m2.GenCodeUnmarshal(buf[:k])
 	rt.Assert(err != nil, "metacodec/short-errors")
+	rt.ObserveBytes("meta-bytes", buf)
 	rt.Reach("metacodec-end")
 }
 
@@ -74,6 +75,7 @@ func VerifC08_WrapperRoundTrip() {
 	if err != nil {
 		return
 	}
+	rt.ObserveBytes("stored", stored)
 	back, err := NewRawWrapper("db", "some/key", stored)
 	rt.Assert(err == nil, "wrt/parse-ok")
 	if err != nil {
@@ -193,6 +195,11 @@ func VerifC08_DecoderTotalGenCode() {
 		rt.Assert(m.cronjewel == (b[36] == 1), "totalg/crownjewel")
 		rt.Reach("totalg-full")
 	}
+	rt.ObserveBool("parse-ok", err == nil)
+	if err == nil && w != nil {
+		rt.ObserveBytes("data", w.Data)
+		rt.Observe("format", uint64(w.Format))
+	}
 	if err == nil {
 		rt.Assert(w != nil, "totalg/ok-nonnil")
 		rt.Assert(len(w.Data) <= len(b), "totalg/data-within-input")
@@ -257,5 +264,7 @@ func VerifC08_ParseKey() {
 	for i := 0; i < len(db); i++ {
 		rt.Assert(db[i] != ':', "parsekey/db-has-no-sep")
 	}
+	rt.ObserveStr("db", db)
+	rt.ObserveStr("k", k)
 	rt.Reach("parsekey-end")
 }
